@@ -362,4 +362,232 @@ theorem number_numGrammar (p : Int) : NumGrammar number p := by
   · rw [h]; exact json_isMin_of_shape l hwf hsg ⟨hdot, shape_of_intOk hint⟩
   · rw [← h2]; exact json_isMin_of_shape l' h1 h3 hsh
 
+theorem startsDot_sgn_digit (neg : Bool) {d : Char} (r : List Char) (hd : d.isDigit = true) :
+    startsDot (sgn neg (d :: r)) = false := by
+  have h1 : d ≠ '.' := digit_ne hd (by decide)
+  have h2 : d ≠ '-' := digit_ne hd (by decide)
+  cases neg with
+  | true =>
+    simp only [sgn, if_true]
+    unfold startsDot; split
+    · rename_i t e; cases e
+    · rename_i t e; injection e with _ e2; injection e2 with e3 _; exact absurd e3 h1
+    · rfl
+  | false =>
+    simp only [sgn, Bool.false_eq_true, if_false]
+    unfold startsDot; split
+    · rename_i t e; injection e with e1 _; exact absurd e1 h1
+    · rename_i t e; injection e with e1 _; exact absurd e1 h2
+    · rfl
+
+/-- a result of the print stage that starts with `.` / `-.` has `normExp ≤ 0` -/
+theorem printCase_dot (s : List Char) (neg : Bool) (W : Nat) (ip fp : List Char) (e : Int)
+    (ds : List Char) (N0 : Int) (hds : AllDig ds) (hne : ds ≠ [])
+    (h : startsDot (printCase s neg W ip fp e ds N0) = true) :
+    printCase s neg W ip fp e ds N0 = s ∨ N0 + e ≤ 0 := by
+  by_cases hNE : N0 + e ≤ 0
+  · right; exact hNE
+  · left
+    obtain ⟨d, r, hdr⟩ : ∃ d r, ds = d :: r := by
+      cases ds with | nil => exact absurd rfl hne | cons d r => exact ⟨d, r, rfl⟩
+    have hd : d.isDigit = true := hds d (by rw [hdr]; simp)
+    unfold printCase at h ⊢
+    simp only [] at h ⊢
+    split
+    · rfl
+    · rename_i hov
+      rw [if_neg hov] at h
+      exfalso
+      have hl := (lenInt_facts (N0 + e - (ds.length : Int))).1
+      split at h
+      · rw [hdr, List.cons_append, startsDot_sgn_digit neg _ hd] at h; cases h
+      · split at h
+        · rename_i h2
+          simp only [Bool.and_eq_true, decide_eq_true_eq] at h2
+          omega
+        · split at h
+          · split at h
+            · omega
+            · rename_i hn0
+              have hk : (N0 + e).toNat = ((N0 + e).toNat - 1) + 1 := by omega
+              rw [hdr, hk, List.take_succ_cons, List.cons_append, startsDot_sgn_digit neg _ hd] at h
+              cases h
+          · omega
+
+
+theorem roundInt_ip_exp (h : Char) (t : List Char) (pend : Bool) (e0 : Int) (n : Nat)
+    (ht : t.length + 1 ≤ n) (hpend : pend = true → t = []) (he : 0 ≤ e0)
+    (hg : -9223372036854775808 ≤ e0 ∧ e0 + (n : Int) < 9223372036854775808) :
+    (roundInt h t pend (wrap64 (e0 + ((n : Int) - ((1 + t.length : Nat) : Int))))).ip ≠ [] ∧
+    0 ≤ (roundInt h t pend (wrap64 (e0 + ((n : Int) - ((1 + t.length : Nat) : Int))))).e := by
+  obtain ⟨_, k, d, h2, h3, h4⟩ := roundInt_len h t pend e0 n ht hpend hg
+  constructor
+  · intro hnil
+    rw [hnil] at h2
+    simp only [List.length_nil] at h2
+    rcases h4 with ⟨_, h5⟩ | ⟨h5, _, _⟩ <;> omega
+  · rw [h3]; omega
+
+/-- with integer digits and a non-negative exponent the precision branch keeps both -/
+theorem roundP_ip_exp (m : Mant) (p : Nat) (hp : 0 < p) (hip : m.ip ≠ []) (he : 0 ≤ m.e)
+    (hg : -9223372036854775808 ≤ m.e ∧ m.e + (mlen m.ip m.fp : Int) < 9223372036854775808) :
+    (roundP m p).ip ≠ [] ∧ 0 ≤ (roundP m p).e := by
+  unfold roundP
+  split
+  · rename_i hi; exact absurd hi hip
+  · rename_i h tl hi
+    rw [hi] at hg
+    have hmc := mlen_cases (h :: tl) m.fp
+    simp only [List.length_cons] at hmc
+    simp only []
+    split
+    · split
+      · unfold roundIp
+        obtain ⟨s1, s2⟩ := incStrip_length (((h :: tl).take p).drop 1) (ge5At (h :: tl) p)
+        simp only [List.length_drop, List.length_take, List.length_cons] at s1
+        exact roundInt_ip_exp h _ _ m.e (tl.length + 1) (by omega) s2 he (by omega)
+      · exact ⟨hip, he⟩
+    · split
+      · split
+        · unfold roundIp
+          obtain ⟨s1, s2⟩ := incStrip_length (((h :: tl).take p).drop 1)
+            (if p < tl.length + 1 then ge5At (h :: tl) p else ge5At m.fp 0)
+          simp only [List.length_drop, List.length_take, List.length_cons] at s1
+          exact roundInt_ip_exp h _ _ m.e (tl.length + 1) (by omega) s2 he (by omega)
+        · obtain ⟨s1, s2⟩ := incStrip_length (tl ++ m.fp.take (p - (tl.length + 1))) (ge5At m.fp (p - (tl.length + 1)))
+          split
+          · exact ⟨by simp, he⟩
+          · rename_i hk
+            simp only [Bool.and_eq_true, Bool.not_eq_true', decide_eq_true_eq, not_and, Nat.not_le] at hk
+            have hlen : (incStrip (tl ++ m.fp.take (p - (tl.length + 1))) (ge5At m.fp (p - (tl.length + 1)))).1.length + 1 ≤ tl.length + 1 := by
+              cases hpend : (incStrip (tl ++ m.fp.take (p - (tl.length + 1))) (ge5At m.fp (p - (tl.length + 1)))).2 with
+              | true => rw [s2 hpend]; simp
+              | false => have := hk hpend; omega
+            exact roundInt_ip_exp h _ _ m.e (tl.length + 1) hlen s2 he (by omega)
+      · exact ⟨hip, he⟩
+
+
+theorem startsDot_lex (l : Lex) (hwf : l.WF) (hip : l.ip ≠ []) : startsDot l.str = false := by
+  obtain ⟨d, r, hdr⟩ : ∃ d r, l.ip = d :: r := by
+    cases h : l.ip with | nil => exact absurd h hip | cons d r => exact ⟨d, r, rfl⟩
+  have hd : d.isDigit = true := hwf.ip d (by rw [hdr]; simp)
+  unfold Lex.str
+  rw [hdr]
+  cases l.sg with
+  | none => exact startsDot_sgn_digit false _ hd
+  | minus => exact startsDot_sgn_digit true _ hd
+  | plus => rfl
+
+theorem ex_none_of_hasExp (l : Lex) (hwf : l.WF) (h : hasExp l.str = false) : l.ex = none := by
+  cases hx : l.ex with
+  | none => rfl
+  | some x =>
+    obtain ⟨c, esg, ds⟩ := x
+    obtain ⟨hc, _, _⟩ := hwf.ex c esg ds hx
+    have hce : isE c = true := by rcases hc with rfl | rfl <;> decide
+    have : hasExp l.str = true := by
+      unfold hasExp
+      rw [List.any_eq_true]
+      exact ⟨c, by simp [Lex.str, Lex.exPart, hx], hce⟩
+    rw [this] at h; cases h
+
+theorem sigDigits_ip_ne {ip fp : List Char} (h : ip ≠ []) : (sigDigits ip fp).2 = (ip.length : Int) := by
+  unfold sigDigits
+  simp only [nonempty_of_ne_nil h, Bool.false_eq_true, if_false]
+  split <;> rfl
+
+theorem number_minus_zero (p : Int) : number ['-', '0'] p = ['0'] := by
+  simp [number, notE, expOfRest, numberCore, splitLastDot, dropZeros]
+
+/-- C07's hypothesis `NumDotShrinks`, for the model of `minify.Number` at every precision -/
+theorem number_numDotShrinks (p : Int) : NumDotShrinks number p := by
+  intro s hs hexp hdot
+  obtain ⟨l, hwf, rfl, hsg, hint, hdotfp⟩ := exists_lex_of_isJsonNumber hs
+  have hex := ex_none_of_hasExp l hwf hexp
+  have he0 : l.expVal = 0 := by simp [Lex.expVal, hex]
+  have hipne : l.ip ≠ [] := by intro h; rw [h] at hint; simp [intOk] at hint
+  have hsd := startsDot_lex l hwf hipne
+  have hstrlen : l.str.length = l.sg.chars.length + (l.ip.length + l.dotPart.length) := by
+    simp [Lex.str, Lex.exPart, hex]
+  rcases number_lex l hwf p (fun m0 h => rnd_wf h p) with h | ⟨l', h1, h2, h3, _, h5, _⟩
+  · rw [h, hsd] at hdot; cases hdot
+  · rcases h5 with ⟨_, _, z3⟩ | ⟨hm, hgd, _, hW⟩
+    · rw [← h2, z3] at hdot; cases hdot
+    · -- the print stage
+      have hml := trimmed_mlen_le l hwf
+      have hmw := rnd_wf (m := ⟨dropZeros l.ip, dropTrail '0' l.fp, 0⟩) hm p
+      obtain ⟨_, hdd, hdne, _⟩ := sigDigits_kindDig hmw
+      rw [he0] at hW hgd
+      -- length of the rounded mantissa
+      have hlenR : mlen (rnd p ⟨dropZeros l.ip, dropTrail '0' l.fp, 0⟩).ip (rnd p ⟨dropZeros l.ip, dropTrail '0' l.fp, 0⟩).fp +
+          expLen (rnd p ⟨dropZeros l.ip, dropTrail '0' l.fp, 0⟩).e ≤ mlen (dropZeros l.ip) (dropTrail '0' l.fp) := by
+        by_cases hp : p ≤ 0
+        · rw [rnd_nonpos hp]; simp [expLen]
+        · have := roundP_len ⟨dropZeros l.ip, dropTrail '0' l.fp, 0⟩ p.toNat (by omega)
+            (noWrap_of_guard (by omega) hgd hml)
+          unfold rnd; rw [if_pos (by omega)]
+          simpa [expLen] using this
+      by_cases hz : dropZeros l.ip = []
+      · -- the integer part is `0`: one byte is dropped in front
+        have hip0 : l.ip = ['0'] := by
+          cases hi : l.ip with
+          | nil => exact absurd hi hipne
+          | cons c t =>
+            by_cases hc : c = '0'
+            · subst hc
+              have := shape_of_intOk hint t hi
+              rw [this]
+            · rw [hi, dropZeros_cons_ne t hc] at hz; cases hz
+        have hdt : l.dot = true := by
+          cases hd : l.dot with
+          | true => rfl
+          | false =>
+            exfalso
+            have hfp := hwf.nodot hd
+            have hstr : l.str = l.sg.chars ++ ['0'] := by
+              simp [Lex.str, Lex.dotPart, Lex.exPart, hex, hd, hip0]
+            rw [hstr] at hdot
+            cases hs2 : l.sg with
+            | plus => exact hsg hs2
+            | none => rw [hs2] at hdot; simp [Sg.chars, number, startsDot] at hdot
+            | minus =>
+              rw [hs2] at hdot
+              simp only [Sg.chars, List.cons_append, List.nil_append] at hdot
+              rw [number_minus_zero] at hdot
+              cases hdot
+        have hfpne := hdotfp hdt
+        have hdl : l.dotPart.length = 1 + l.fp.length := by simp [Lex.dotPart, hdt]; omega
+        have hfl := dropTrail_length_le '0' l.fp
+        have hmc := mlen_cases (dropZeros l.ip) (dropTrail '0' l.fp)
+        rw [hz] at hmc hlenR hW
+        rw [hip0] at hW hstrlen
+        simp only [List.length_nil, List.length_cons, dropZeros_nil] at hmc hW hstrlen
+        have hsgl : l.sg.chars.length = (if (l.sg != Sg.none) = true then 1 else 0) ∧
+            (if l.sg.neg then 1 else 0) ≤ (if (l.sg != Sg.none) = true then 1 else 0) := by
+          cases l.sg <;> simp [Sg.chars, Sg.neg]
+        rcases printNum_length l.str l.sg.neg _ (rnd p ⟨[], dropTrail '0' l.fp, 0⟩)
+          (Nat.le_trans (Nat.le_of_eq (by rfl)) (show mlen (rnd p ⟨[], dropTrail '0' l.fp, 0⟩).ip (rnd p ⟨[], dropTrail '0' l.fp, 0⟩).fp +
+            expLen (rnd p ⟨[], dropTrail '0' l.fp, 0⟩).e ≤
+            l.str.length - ((if (l.sg != Sg.none) = true then 1 else 0) + (1 - 0)) by omega)) with hp | ⟨u, hp, hu⟩
+        · rw [hW, hp, hsd] at hdot; cases hdot
+        · rw [hW, hp, sgn_length]
+          omega
+      · -- integer digits remain: the result cannot start with a dot
+        exfalso
+        have hm0 : (rnd p ⟨dropZeros l.ip, dropTrail '0' l.fp, 0⟩).ip ≠ [] ∧
+            0 ≤ (rnd p ⟨dropZeros l.ip, dropTrail '0' l.fp, 0⟩).e := by
+          by_cases hp : p ≤ 0
+          · rw [rnd_nonpos hp]; exact ⟨hz, Int.le_refl 0⟩
+          · unfold rnd; rw [if_pos (by omega)]
+            exact roundP_ip_exp _ p.toNat (by omega) hz (Int.le_refl 0) (noWrap_of_guard (by omega) hgd hml)
+        have hdotN := hdot
+        rw [hW] at hdot
+        unfold printNum at hdot
+        rcases printCase_dot _ _ _ _ _ _ _ _ hdd hdne hdot with hp | hp
+        · have : number l.str p = l.str := by rw [hW]; exact hp
+          rw [this, hsd] at hdotN; cases hdotN
+        · rw [sigDigits_ip_ne hm0.1] at hp
+          have : 0 < (rnd p ⟨dropZeros l.ip, dropTrail '0' l.fp, 0⟩).ip.length := List.length_pos_iff.mpr hm0.1
+          omega
+
 end Verif.Proofs.Num
